@@ -62,6 +62,8 @@ def dedrift(fr, drift_rate=None):
                          tr_data,
                          metadata=fr.metadata,
                          waterfall=fr.check_waterfall(),
+                         t_start=fr.t_start,
+                         source_name=fr.source_name,
                          seed=fr.rng)
 #     if dd_fr.waterfall is not None and 'source_name' in dd_fr.waterfall.header:
 #         dd_fr.waterfall.header['source_name'] += '_dedrifted'
